@@ -2,6 +2,7 @@ package main
 
 import (
 	"fmt"
+	"github.com/uber-go/tally/v4/m3"
 	"strings"
 	"time"
 
@@ -287,5 +288,68 @@ func c09RaceScenarios(tier string) []*Scenario {
 			}
 		}
 	}
-	return []*Scenario{mk(false), mk(true), x2}
+	// X3: several scopes of one root make the first use of a histogram with ONE shared bucket set that is not in
+	// ascending order, with the M3 reporter (which derives its bucket tags from the set it is handed) and with the
+	// recording reporter: the set is only ever read - by the library and by the reporters it calls - so concurrent
+	// first uses are race free, leave it as it was, and every sample lands in the bucket of its value
+	mk3 := func(m3rep bool) *Scenario {
+		x3 := &Scenario{Property: "C09", Name: fmt.Sprintf("X3-shared-unsorted-bucket-set-first-used-by-many-scopes-m3=%v", m3rep)}
+		x3.Body = func(x *Run) {
+			rec := &Recorder{NoPoints: true}
+			o := scopeOpts(rec, true, false)
+			if m3rep {
+				s := newFastSink()
+				x.Cleanup = append(x.Cleanup, s.close)
+				r, err := m3.NewReporter(m3.Options{HostPorts: []string{s.addr}, Service: "svc", Env: "test", MaxQueueSize: 64})
+				if err != nil {
+					x.failf("new-reporter", "%v", err)
+					return
+				}
+				x.Cleanup = append(x.Cleanup, func() { _ = r.Close() })
+				o = tally.ScopeOptions{CachedReporter: r, OmitCardinalityMetrics: true}
+			}
+			root, _ := tally.VerifNewRootScope(o, 0, 4)
+			orig := []float64{5, 3, 1, 4, 2, 9, 7, 8, 6}
+			shared := tally.ValueBuckets(append([]float64{}, orig...))
+			const nG = 6
+			gate := newGate(nG)
+			var ths []*rt.Thread
+			for g := 0; g < nG; g++ {
+				g := g
+				ths = append(ths, rt.GoNamed("user", func() {
+					gate()
+					root.Tagged(map[string]string{"g": fmt.Sprint(g)}).Histogram("h", shared).RecordValue(2.5)
+				}))
+			}
+			for _, t := range ths {
+				t.Join()
+			}
+			for i := range orig {
+				if shared[i] != orig[i] {
+					x.failf("caller-slice-modified", "the shared bucket set was %v and is now %v", orig, []float64(shared))
+					return
+				}
+			}
+			if !m3rep {
+				tally.VerifReportOnce(root)
+				rec.mu.Lock()
+				defer rec.mu.Unlock()
+				n := 0
+				for _, e := range rec.Log {
+					if e.Kind == "hvalue" && e.I != 0 {
+						if e.LoF != 2 || e.HiF != 3 || e.I != 1 {
+							x.failf("sample-in-wrong-bucket", "2.5 recorded once per scope: %s", e.String())
+							return
+						}
+						n++
+					}
+				}
+				if n != nG {
+					x.failf("sum-mismatch", "%d scopes recorded one sample each, %d bucket deliveries", nG, n)
+				}
+			}
+		}
+		return x3
+	}
+	return []*Scenario{mk(false), mk(true), x2, mk3(true), mk3(false)}
 }
